@@ -125,7 +125,7 @@ int main (int argc, char **argv) {
 	quarantine = getenv ("VERIF_QUARANTINE") != NULL;
 	in = fopen (argv[1], "r"); if (!in) return 2;
 	vtm_init (0);
-	p_libsys_init ();
+	p_libsys_init (); p_libsys_shutdown (); p_libsys_init ();      /* the library is used after a shutdown / re-initialisation cycle */
 	vt.f_malloc = t_malloc; vt.f_realloc = t_realloc; vt.f_free = t_free;
 	if (!p_mem_set_vtable (&vt)) return 2;
 	vtm_open (base, 0);
